@@ -603,3 +603,184 @@ def analyse_readers(cls: ast.ClassDef) -> dict:
 def coq_read_rows(rows: list[dict]) -> str:
     b = lambda x: 'true' if x else 'false'
     return '[' + '; '.join(f'mkRRow {b(r["alen_zero"])} {b(r["idx_none"])} {r["read"]} {r["verify"]}' for r in rows) + ']'
+
+
+# ------------------------------------------------------------------------------------------------ small pure checks, executed concretely
+class _Raised(Exception):
+    def __init__(self, what: str):
+        self.what = what
+
+
+class _Returned(Exception):
+    def __init__(self, v):
+        self.v = v
+
+
+def mini_exec(stmts, env: dict, funcs: dict, depth: int = 0) -> None:
+    """A concrete interpreter for the validation code (pure: comparisons of strings / ints / None, loops over tuples, raise)."""
+    if depth > 6:
+        raise TranslateError('validation code too deeply nested')
+    for s in stmts:
+        if isinstance(s, ast.Expr) and isinstance(s.value, ast.Constant):
+            continue
+        if isinstance(s, ast.Pass):
+            continue
+        if isinstance(s, ast.If):
+            mini_exec(s.body if mini_eval(s.test, env, funcs) else s.orelse, env, funcs, depth + 1)
+        elif isinstance(s, ast.For) and isinstance(s.target, ast.Name) and not s.orelse:
+            for v in mini_eval(s.iter, env, funcs):
+                env2 = env
+                env2[s.target.id] = v
+                mini_exec(s.body, env2, funcs, depth + 1)
+        elif isinstance(s, ast.Raise):
+            e = s.exc
+            raise _Raised(ast.unparse(e.func if isinstance(e, ast.Call) else e) if e is not None else '?')
+        elif isinstance(s, ast.Return):
+            raise _Returned(None if s.value is None else mini_eval(s.value, env, funcs))
+        elif isinstance(s, ast.Assign) and len(s.targets) == 1 and isinstance(s.targets[0], ast.Name):
+            env[s.targets[0].id] = mini_eval(s.value, env, funcs)
+        elif isinstance(s, ast.Expr):
+            mini_eval(s.value, env, funcs)
+        else:
+            raise TranslateError(f'line {s.lineno}: validation statement {ast.unparse(s)[:60]!r} not understood')
+
+
+def mini_eval(e, env: dict, funcs: dict):
+    if isinstance(e, ast.Constant):
+        return e.value
+    if isinstance(e, ast.JoinedStr):
+        return '?'
+    if isinstance(e, ast.Name):
+        if e.id in env:
+            return env[e.id]
+        raise TranslateError(f'line {e.lineno}: validation code uses {e.id}')
+    if isinstance(e, (ast.Tuple, ast.List)):
+        return tuple(mini_eval(x, env, funcs) for x in e.elts)
+    if isinstance(e, ast.UnaryOp) and isinstance(e.op, ast.Not):
+        return not mini_eval(e.operand, env, funcs)
+    if isinstance(e, ast.BoolOp):
+        v = None
+        for x in e.values:
+            v = mini_eval(x, env, funcs)
+            if (isinstance(e.op, ast.And) and not v) or (isinstance(e.op, ast.Or) and v):
+                return v
+        return v
+    if isinstance(e, ast.Compare):
+        left = mini_eval(e.left, env, funcs)
+        for op, c in zip(e.ops, e.comparators):
+            right = mini_eval(c, env, funcs)
+            try:
+                ok = {ast.In: lambda a, b: a in b, ast.NotIn: lambda a, b: a not in b, ast.Eq: lambda a, b: a == b, ast.NotEq: lambda a, b: a != b,
+                      ast.Is: lambda a, b: a is b, ast.IsNot: lambda a, b: a is not b, ast.Lt: lambda a, b: a < b, ast.LtE: lambda a, b: a <= b,
+                      ast.Gt: lambda a, b: a > b, ast.GtE: lambda a, b: a >= b}[type(op)](left, right)
+            except TypeError:
+                raise _Raised('TypeError')
+            if not ok:
+                return False
+            left = right
+        return True
+    if isinstance(e, (ast.GeneratorExp, ast.ListComp)) and len(e.generators) == 1 and isinstance(e.generators[0].target, ast.Name):
+        g = e.generators[0]
+        out = []
+        for v in mini_eval(g.iter, env, funcs):
+            env2 = dict(env)
+            env2[g.target.id] = v
+            if all(mini_eval(c, env2, funcs) for c in g.ifs):
+                out.append(mini_eval(e.elt, env2, funcs))
+        return out
+    if isinstance(e, ast.Call) and isinstance(e.func, ast.Name) and not e.keywords:
+        args = [mini_eval(a, env, funcs) for a in e.args]
+        if e.func.id in ('any', 'all') and len(args) == 1:
+            return any(args[0]) if e.func.id == 'any' else all(args[0])
+        if e.func.id in funcs:
+            return funcs[e.func.id](*args)
+        if e.func.id in ('ValueError', 'TypeError', 'len', 'repr', 'str'):
+            return '?'
+    raise TranslateError(f'line {getattr(e, "lineno", "?")}: validation expression {ast.unparse(e)[:60]!r} not understood')
+
+
+def index_check_ok(fn: ast.FunctionDef, consts: dict[str, int]) -> bool:
+    """`_check_arch_index` executed on None and on integers around 0, DIR_ARCH_INDEX and the 16-bit limit: it must raise exactly when the
+    index is not None and not in 0 .. DIR_ARCH_INDEX-1."""
+    params = [a.arg for a in fn.args.posonlyargs + fn.args.args]
+    if len(params) != 1 or 'DIR_ARCH_INDEX' not in consts:
+        return False
+    d = consts['DIR_ARCH_INDEX']
+    for v in (None, -2, -1, 0, 1, 2, 7, d - 2, d - 1, d, d + 1, 32768, 65535, 65536, 100000):
+        env = dict(consts)
+        env[params[0]] = v
+        raised = False
+        try:
+            mini_exec(fn.body, env, {})
+        except _Raised:
+            raised = True
+        except _Returned:
+            pass
+        if raised != (v is not None and not (0 <= v < d)):
+            return False
+    return True
+
+
+def index_check_guarded(fn: ast.FunctionDef, vpk_exprs: tuple[str, ...]) -> bool:
+    """`if <vpk>._dir_prefix is not None: _check_arch_index(<index parameter>)` (also `<vpk>.is_directory`), before anything else uses
+    the index"""
+    params = [a.arg for a in fn.args.posonlyargs + fn.args.args + fn.args.kwonlyargs]
+    for s in fn.body:
+        if isinstance(s, ast.If) and not s.orelse:
+            t = ast.unparse(s.test)
+            if t in tuple(f'{v}._dir_prefix is not None' for v in vpk_exprs) + tuple(f'{v}.is_directory' for v in vpk_exprs):
+                for b in s.body:
+                    if isinstance(b, ast.Expr) and isinstance(b.value, ast.Call) and isinstance(b.value.func, ast.Name) \
+                            and b.value.func.id == '_check_arch_index' and len(b.value.args) == 1 and isinstance(b.value.args[0], ast.Name) \
+                            and b.value.args[0].id in params:
+                        return True
+    return False
+
+
+def name_check_ok(fn: ast.FunctionDef) -> bool:
+    """The validation statements of new_file (between `_get_file_parts` and the first statement that touches the nest), executed on all
+    triples of probe strings: ValueError exactly when a part contains NUL or is a single space (probes are ASCII)."""
+    body = list(fn.body)
+    start = None
+    names = None
+    for i, s in enumerate(body):
+        if isinstance(s, ast.Assign) and isinstance(s.value, ast.Call) and isinstance(s.value.func, ast.Name) and s.value.func.id == '_get_file_parts' \
+                and len(s.targets) == 1 and isinstance(s.targets[0], ast.Tuple) and all(isinstance(x, ast.Name) for x in s.targets[0].elts):
+            start, names = i + 1, [x.id for x in s.targets[0].elts]
+    if start is None or len(names) != 3:
+        return False
+    block = []
+    for s in body[start:]:
+        if any(isinstance(n, ast.Attribute) and n.attr == '_fileinfo' for n in ast.walk(s)):
+            break
+        block.append(s)
+    params = [a.arg for a in fn.args.posonlyargs + fn.args.args]
+    probes = ['a', ' ', '', 'a\x00b', '\x00', '  ', ' a']
+    ascii_ok = lambda v: all(ord(c) < 0x80 or 0xDC80 <= ord(c) <= 0xDCFF for c in v)
+    for p in probes:
+        for n in probes:
+            for x in probes:
+                env = {names[0]: p, names[1]: n, names[2]: x}
+                for q in params:
+                    env.setdefault(q, '?')
+                raised = None
+                try:
+                    mini_exec(block, env, {'_check_is_ascii': ascii_ok})
+                except _Raised as r:
+                    raised = r.what
+                except _Returned:
+                    return False
+                bad = any('\x00' in v or v == ' ' for v in (p, n, x))
+                if (raised is not None) != bad:
+                    return False
+    # and non-ASCII names are refused
+    env = {names[0]: 'a', names[1]: 'caf\xe9', names[2]: 'x'}
+    for q in params:
+        env.setdefault(q, '?')
+    try:
+        mini_exec(block, env, {'_check_is_ascii': ascii_ok})
+    except _Raised:
+        return True
+    except _Returned:
+        return False
+    return False
